@@ -315,7 +315,7 @@ Proof.
   intros W. unfold copy_from_extent. destruct (obj_mask o e inv) as [[m|]|] eqn:M; try discriminate.
   destruct (masked_copy repaired o (Some m) None) as [o1|] eqn:C; [|discriminate]. intros H; injection H as <-.
   exists m. split; [reflexivity|].
-  apply (masked_copy_done repaired o (Some m) None o1 W) in C; auto.
+  apply (masked_copy_done repaired o (Some m) None o1 W) in C; auto using cmask_ok_none.
 Qed.
 
 Lemma copy_from_extent_none o e inv : copy_from_extent o e inv = CNone <-> obj_mask o e inv = Ok None.
